@@ -63,7 +63,7 @@ fn t(name: &str, code: String, budgets: &[(&str, u32)]) -> Template {
 	}
 }
 
-pub const N_TEMPLATES: usize = 38;
+pub const N_TEMPLATES: usize = 43;
 
 pub fn template(idx: usize, c: i64) -> Template {
 	match idx % N_TEMPLATES {
@@ -243,6 +243,31 @@ pub fn template(idx: usize, c: i64) -> Template {
 			"assert-object-unneeded-fields",
 			format!("local o = {{ assert self.a > 0, a: std.trace('L1', {c}), b: error 'bomb1', c: std.trace('L2', 2) }}; {{ r1: o.a, r2: o.a + o.c }}"),
 			&[("L1", 1), ("L2", 1)],
+		),
+		37 => t(
+			"object-local-shared-body-two-objects",
+			format!("local base = {{ local x = std.trace('L1', {c}), a: x, b: x + 1, c: x + 2 }}; local d1 = base + {{ k: 1 }}, d2 = base + {{ k: 2 }}; {{ r1: d1.a, r2: d2.a, r3: d1.b, r4: d2.b, r5: d1.c + d2.c }}"),
+			&[("L1", 2)],
+		),
+		38 => t(
+			"object-local-self-extended",
+			format!("local o = {{ local x = std.trace('L1', {c}), a: x, b: x + 1, viaCopy: (self + {{ a: 100 }}).b }}; {{ r1: o.a, r2: o.viaCopy, r3: o.b, r4: o.a + o.b }}"),
+			&[("L1", 2)],
+		),
+		39 => t(
+			"three-layer-object-locals",
+			format!("local l1 = {{ local x = std.trace('L1', {c}), a: x }}, l2 = {{ local y = std.trace('L2', 2), b: y + super.a }}, l3 = {{ local z = std.trace('L3', 3), c: z + self.b + super.a }}; local o = l1 + l2 + l3; {{ r1: o.c, r2: o.b, r3: o.a, r4: o.c + o.b }}"),
+			&[("L1", 1), ("L2", 1), ("L3", 1)],
+		),
+		40 => t(
+			"unneeded-arguments-of-every-shape",
+			format!("local f(a, b) = a, g(a, b={{ [error 'bomb6']: 1 }}) = a; {{ r1: f(std.trace('L1', {c}), {{ [error 'bomb1']: 1 }}), r2: f(1, [error 'bomb2', std.trace('L2', 2)]), r3: f(b={{ ['k' + error 'bomb3']: 1 }}, a=2), r4: std.get({{ x: 1 }}, 'x', {{ [error 'bomb4']: 2 }}), r5: if true then 1 else {{ [error 'bomb5']: 1 }}, r6: g(3), r7: f(4, function(x) error 'bomb7'), r8: f(5, {{ a: 1 }} {{ [error 'bomb8']: 1 }}) }}"),
+			&[("L1", 1), ("L2", 0)],
+		),
+		41 => t(
+			"unneeded-locals-of-every-shape",
+			format!("local u1 = {{ [error 'bomb1']: 1 }}, u2 = [error 'bomb2'][0], u3 = {{ assert error 'bomb3' }}, u4 = 'x%s' % error 'bomb4', u5 = (import 'once.libsonnet').unused; local o = {{ local v = {{ [error 'bomb5']: 1 }}, a: std.trace('L3', {c}) }}; {{ r1: o.a, r2: std.length([u1, u2, u3, u4, u5]) }}"),
+			&[("L3", 1), ("L1", 0), ("L2", 0)],
 		),
 		_ => t(
 			"import-evaluated-once",
